@@ -210,6 +210,44 @@ def add_variants(cases, quick):
   return cases
 
 
+def _poly_integral_one(c):
+  """OperatorsPoly.tla: the area integral and the sum of squared coefficients of a field given as a polynomial on
+  the sphere, against the exact global means (double-factorial formula)."""
+  import math
+  np, jax, jnp = spectral.np_jax()
+  from harness import dataflow
+  from harness.common import fl
+  out = []
+  a = fl(c['a'])
+  mean, mean2 = fl(c['mean']), fl(c['mean_square'])
+  for g in (dict(M=5, L=6), dict(M=5, L=6, impl='fast', mult=4), dict(M=6, L=8, spacing='equiangular', J=16), dict(M=5, L=6, offset=0.7)):
+    grid = dataflow.make_grid(g, radius=a)
+    lon, sinlat = (np.asarray(v, np.float64) for v in grid.nodal_mesh)
+    cosl = np.sqrt(np.maximum(0.0, 1 - sinlat ** 2))
+    X, Y, Z = cosl * np.cos(lon), cosl * np.sin(lon), sinlat
+    real = np.zeros(X.shape, bool)
+    real[:grid.longitude_nodes, :grid.latitude_nodes] = True
+    f = np.zeros_like(X)
+    for i, j, k, n, d in c['f']:
+      f = f + (n / d) * X ** i * Y ** j * Z ** k
+    f = np.where(real, f, 0.0)
+    got = float(grid.integrate(jnp.asarray(f)))
+    want = 4 * math.pi * a ** 2 * mean
+    if not abs(got - want) <= 1e-12 * (1 + abs(want)) * 4 * math.pi * a ** 2:
+      out.append({'case': c, 'sig': 'analytic:integral', 'detail': f'grid {g} radius {a}: integrate = {got!r}, exact 4 pi a^2 mean = {want!r}'})
+    cm = np.asarray(grid.to_modal(jnp.asarray(f)))
+    c00 = float(cm[0, 0])
+    if not abs(c00 - math.sqrt(4 * math.pi) * mean) <= 1e-12 * (1 + abs(mean)):
+      out.append({'case': c, 'sig': 'analytic:mean_coefficient', 'detail': f'grid {g}: (0,0) coefficient {c00!r}, exact sqrt(4 pi) mean = {math.sqrt(4 * math.pi) * mean!r}'})
+    ss = float((cm ** 2).sum())
+    if not abs(ss - 4 * math.pi * mean2) <= 1e-11 * (1 + 4 * math.pi * mean2):
+      out.append({'case': c, 'sig': 'analytic:parseval', 'detail': f'grid {g}: sum of squared coefficients {ss!r}, exact integral of f^2 over the unit sphere {4 * math.pi * mean2!r}'})
+  return out
+
+
+replay_poly_integrals = common.per_case(_poly_integral_one, 'analytic')
+
+
 def run(ctx):
   q = ctx.quick
   r = ctx.tlc('SpectralIndex', 'SpectralIndex_quick.cfg' if q else 'SpectralIndex_thorough.cfg')
@@ -227,7 +265,11 @@ def run(ctx):
   seqs = [c['ops'] for c in rh.cases]
   groups = [{'grid': gi, 'radius': rad, 'seqs': seqs} for gi in (0, 1) for rad in (2.0, 0.5)]
   res += replay_history(groups)
-  ctx.replayed += len(cases) + len(fac) + len(seqs) * len(groups)
+  # analytic oracle: exact global means of polynomial fields on the sphere (OperatorsPoly.tla)
+  rp = ctx.tlc('OperatorsPoly', 'OperatorsPoly.cfg', workers=2)
+  ctx.require_actions(rp, ['First', 'Second'])
+  res += common.parallel_map('c01', 'replay_poly_integrals', rp.cases, nproc=4, tag='poly', outdir=os.path.join(ctx.out, 'par'))
+  ctx.replayed += len(cases) + len(fac) + len(seqs) * len(groups) + len(rp.cases)
   ctx.sample({'kind': 'history', 'ops': seqs[len(seqs) // 2]})
   nlab = sum(len(c['labels']) * len(c['variants']) for c in cases)
   ctx.comparisons += nlab * 4
